@@ -11,13 +11,14 @@ META = dict(
         'PayloadSource::diff (RTR) and in http::delta::handle_get_or_head, and the State/serial returned with the delta comes '
         'from the same read guard. K4 on delta_since (RFC 1982 serial order is PARTIAL: serials 2^31 apart are incomparable, '
         'abstracted as a 4-valued relation): no history -> empty delta iff serial == 0 else refuse; front < serial -> refuse; '
-        'front == serial -> empty delta; front == serial+1 -> the front delta; in the skip loop over retained deltas the '
+        'front == serial -> empty delta; front == serial+1 -> the front delta; oldest retained delta == serial+1 -> served from '
+        'the oldest delta (window clause: a client history-size serials behind needs all retained deltas); in the skip loop the '
         'rows are Greater -> refuse, Equal -> stop skipping, Less -> skip, and INCOMPARABLE (None) -> must refuse - merging '
         'None into the skip arm answers a never-issued serial with an empty change set tagged with the current serial. '
         'Merge provenance: the accumulator is the receiver of PayloadDelta::merge and the next newer delta its argument '
         '(AspaDelta::merge is not symmetric).'),
     decides='gating by session, the case table of delta_since incl. incomparable serials, and the merge order',
-    undecided='the remaining window arithmetic (that Equal is always reached for retained serials), merge law (C12)',
+    undecided='that retained deltas have consecutive serials (C14), merge law (C12)',
     trusted_base=['rustc MIR construction + callee resolution', 'rpki::rtr::Serial PartialOrd is RFC 1982 (partial)'],
     rules=['K1 session gate', 'K4 delta_since case table', 'provenance of merge receiver/argument'],
 )
@@ -115,6 +116,25 @@ def rule_table(ctx):
                     ctx.bad('K4', 'delta_since:skip-loop:incomparable=>refuse',
                             'the skip loop treats %s (and possibly an incomparable serial) alike: outcome %s/%s. An incomparable '
                             'serial must be refused' % (sorted(pcs), p.kind, p.outcome), loc=loc)
+    # window clause: a client exactly as many serials behind as there are retained deltas needs ALL of them; the delta
+    # that produced its serial is not retained (or never existed), so the scan for `Equal` cannot find its start. Some
+    # test must recognise "the oldest retained delta is the one following the client's serial" and serve from there.
+    oldest_rows = []
+    for p in paths:
+        for v, labs in p.cond_map().items():
+            if v.startswith('cmp(') and re.search(r'Serial::add\(serial', v) and 'VecDeque::front' not in v:
+                oldest_rows.append((p, v, labs))
+    ctx.check(bool(oldest_rows), 'K4', 'delta_since:oldest==serial+1:tested',
+              'the oldest retained delta is compared with serial+1 (a client history-size serials behind is recognised)',
+              'delta_since never compares the oldest retained delta with serial+1: a client that is exactly as many serials behind '
+              'as there are retained deltas (all the deltas it needs are still there) is refused, so only history-size - 1 old '
+              'serials are ever served', loc='%s:%d' % (b.file, b.line))
+    for p, v, labs in oldest_rows:
+        if labs == {'Equal'}:
+            seen.add('oldest-follows')
+            ctx.check(p.outcome != 'Option::None()' or p.kind == 'loop', 'K4', 'delta_since:oldest==serial+1=>served',
+                      'when the oldest retained delta follows the client serial the client is served',
+                      'oldest == serial+1 -> refused (%s)' % p.outcome, loc=p.ret_site.loc() if p.ret_site else None)
     # an Option-level switch with a catch-all arm shows up as labels {'None', ...}
     need = {'nohist,0', 'nohist,!0', 'future', 'current', 'one-behind', 'loop-Greater', 'loop-Equal', 'loop-Less', 'loop-None'}
     ctx.check(need <= seen, 'K4', 'delta_since:all-cases', 'all %d cases present' % len(need), 'cases missing: %s' % sorted(need - seen))
